@@ -205,7 +205,7 @@ def compare_join(acc, rname, w, u, sup, info):
         rtxt = rtxt[:5]
     else:
         from vlib import routes
-        tmpl = "http://h.com/{}" if rname.split("~")[0] == "join_base" else "http://h.com/{}/t"
+        tmpl = info.get("join_tmpl") or ("http://h.com/{}" if rname.split("~")[0] == "join_base" else "http://h.com/{}/t")
         btxt = R.split(R.preprocess(tmpl.replace("{}", w)))[:5]
         rtxt = R.split(info["join_ref"])[:5]
     # yarl's data model (like urllib's) has no "defined but empty" authority/query/fragment: '' is absent
